@@ -67,7 +67,7 @@ def shapes(level: str) -> list[dict]:
 
 class C01(E1Check):
     id = "C01"
-    backends = ["asyncio"]
+    backends = ["asyncio", "trio (quiescent choices + batch reversal; programs with <= 2 callbacks)"]
     assumptions = [
         "at most 3 callbacks per context (4 with one registered during teardown per callback)",
         "one cancellation per execution, delivered while the block is inside its body",
@@ -122,12 +122,22 @@ class C01(E1Check):
     def hash_modes(self, tier: str, program: Any) -> tuple:
         return (0,)
 
+    def backends_for(self, tier: str, program: Any) -> tuple:
+        if program["end"] == "cancel-task":
+            return ("asyncio",)  # Task.cancel() is an asyncio notion
+        n = len(program["cbs"])
+        if tier == "quick":
+            return ("asyncio", "trio") if n == 1 or (n == 2 and program["cbs"][1]["route"] == "ctx" and not program["cbs"][1]["nest"]) else ("asyncio",)
+        return ("asyncio", "trio") if n <= 2 else ("asyncio",)
+
     def work(self, unit: Any, tier: str) -> dict:
         from ..explore import explore_program, new_summary
 
         tot = new_summary()
         for prog in unit:
-            s = explore_program(self, prog, self.bound(tier, prog), self.max_execs(tier, prog), self.hash_modes(tier, prog))
+            s = explore_program(self, prog, self.bound(tier, prog), self.max_execs(tier, prog), self.hash_modes(tier, prog), self.backends_for(tier, prog))
+            for b, n in s.get("per_backend", {}).items():
+                tot.setdefault("extra", {})["executions_" + b] = tot.setdefault("extra", {}).get("executions_" + b, 0) + n
             for k in ("evaluations", "transitions", "states", "distinct", "nontrivial"):
                 tot[k] += s[k]
             tot["violations"].extend(s["violations"])
@@ -392,6 +402,19 @@ class C01(E1Check):
             ok = out is not None and any(
                 len(g.exceptions) == len(L) and all(a is b for a, b in zip(g.exceptions, L)) for g in groups(out)
             )
+            if not ok and env.backend == "trio":
+                # trio's nurseries / cancel scopes split the backend's own cancellation exceptions off an exception group (and
+                # collapse a group that holds nothing else): demand the group for the exceptions the callbacks raised themselves
+                cancelled = anyio.get_cancelled_exc_class()
+                Lnc = [e for e in L if not isinstance(e, cancelled)]
+                if not Lnc:
+                    ok = out is not None
+                else:
+                    ok = out is not None and any(
+                        [x for x in g.exceptions if not isinstance(x, cancelled)] == Lnc
+                        and all(a is b for a, b in zip([x for x in g.exceptions if not isinstance(x, cancelled)], Lnc))
+                        for g in groups(out)
+                    )
             if not ok:
                 fail("group", f"callbacks raised {L!r} but the caller saw {out!r}")
         else:
